@@ -209,7 +209,7 @@ func (e *Engine) analyzeGlobals() {
 		if len(fn.Blocks) == 0 {
 			continue
 		}
-		isInit := fn.Name() == "init" || strings.HasPrefix(fn.Name(), "init#")
+		isInit := fn.Name() == "init" && fn.Synthetic != ""
 		for _, b := range fn.Blocks {
 			for _, ins := range b.Instrs {
 				var ops []*ssa.Value
@@ -271,7 +271,7 @@ func (e *Engine) isConstGlobalName(name string) bool {
 
 // globalFacts: entry facts for init-only globals (not when verifying init itself)
 func (e *Engine) globalFacts(c *FnCtx) {
-	if c.F.Name() == "init" || strings.HasPrefix(c.F.Name(), "init#") {
+	if c.isInit() {
 		return
 	}
 	var names []string
